@@ -6,6 +6,7 @@ import (
 	"encoding/binary"
 	"errors"
 	"fmt"
+	"hash/fnv"
 	"math"
 	"os"
 	"path/filepath"
@@ -18,6 +19,7 @@ import (
 	"github.com/tetratelabs/wazero/api"
 	"github.com/tetratelabs/wazero/imports/wasi_snapshot_preview1"
 	"github.com/tetratelabs/wazero/internal/wasip1"
+	"github.com/tetratelabs/wazero/internal/wasm"
 	wsys "github.com/tetratelabs/wazero/sys"
 	"github.com/tetratelabs/wazero/verif/wb"
 )
@@ -27,8 +29,22 @@ const wasiMod = "wasi_snapshot_preview1"
 // allocBudget: host allocation allowed during one call = 16 x guest memory + 16 MiB.
 const allocBudget = 16*memSize + 16<<20
 
+const probeMod, probeFn = "c15probe", "upper9"
+
+// Stack patterns of the dirty-stack variant (0 = clean stack).
+var dirtyPatterns = []uint64{0xFFFFFFFFFFFFFFFF, 0xA5A5A5A5A5A5A5A5}
+
+const dirtDepth = 3 // the dirtier recurses this many levels below its first frame
+
 // guestBin wraps every WASI import in an exported guest function of the same name and type, so
 // that a call takes the engine's real guest->host path (memory view, bounds checks, panic recovery).
+//
+// Dirty-stack variant: "dirty:<fn>"(pattern i64, args...) first runs a stack dirtier — a function
+// that derives 32 i64 values from `pattern` (rotations, so the compiler cannot fold them), keeps them
+// live across a call (recursing dirtDepth levels down to a leaf), i.e. spills them over about 1 KiB of
+// native stack — and then reaches the import through two nested guest->guest forwarding functions.
+// On amd64 the compiler's host-call trampoline stores only the low 4 bytes of an i32 argument into
+// its 8-byte slot, so after the dirtier the upper halves of the slots hold stale pattern bytes.
 func guestBin() []byte {
 	m := &wb.Module{}
 	type imp struct {
@@ -36,7 +52,7 @@ func guestBin() []byte {
 		params  []byte
 		results []byte
 	}
-	imps := make([]imp, len(fnTable))
+	imps := make([]imp, len(fnTable), len(fnTable)+1)
 	for i, f := range fnTable {
 		var ps []byte
 		for _, pr := range f.params {
@@ -52,6 +68,15 @@ func guestBin() []byte {
 		}
 		imps[i] = imp{m.ImportFunc(wasiMod, f.name, ps, rs), ps, rs}
 	}
+	// harness-owned probe: reports which of its nine i32 slots have a non-zero upper half
+	nine := bytes.Repeat([]byte{wb.I32}, 9)
+	imps = append(imps, imp{m.ImportFunc(probeMod, probeFn, nine, []byte{wb.I64}), nine, []byte{wb.I64}})
+	names := make([]string, 0, len(imps))
+	for _, f := range fnTable {
+		names = append(names, f.name)
+	}
+	names = append(names, probeFn)
+
 	m.Mem = &wb.Limits{Min: memPages, Max: memPages, HasMax: true}
 	for i, f := range fnTable {
 		a := &wb.Asm{}
@@ -61,8 +86,70 @@ func guestBin() []byte {
 		a.Call(imps[i].idx)
 		m.ExportFunc(f.name, m.AddFunc(imps[i].params, imps[i].results, nil, a.B))
 	}
+	// leaf(p) = p + 1
+	leaf := m.AddFunc([]byte{wb.I64}, []byte{wb.I64}, nil, (&wb.Asm{}).LocalGet(0).I64Const(1).Op(0x7c).B)
+	// dirt(depth i32, p i64) i64
+	dirt := leaf + 1
+	const nl = 32
+	d := &wb.Asm{}
+	for i := 0; i < nl; i++ {
+		d.LocalGet(1).I64Const(int64(i + 1)).Op(0x89).LocalSet(uint32(2 + i)) // i64.rotl
+	}
+	d.LocalGet(0).If(wb.I64).
+		LocalGet(0).I32Const(1).Op(0x6b).LocalGet(1).Call(dirt).
+		Else().
+		LocalGet(1).Call(leaf).
+		End().LocalSet(2 + nl)
+	d.LocalGet(2 + nl)
+	for i := 0; i < nl; i++ {
+		d.LocalGet(uint32(2 + i)).Op(0x85) // i64.xor: every value is live across the call
+	}
+	if got := m.AddFunc([]byte{wb.I32, wb.I64}, []byte{wb.I64}, bytes.Repeat([]byte{wb.I64}, nl+1), d.B); got != dirt {
+		panic("function index of the dirtier")
+	}
+	for i, im := range imps {
+		fwd := func(callee uint32) uint32 {
+			a := &wb.Asm{}
+			for k := range im.params {
+				a.LocalGet(uint32(k))
+			}
+			return m.AddFunc(im.params, im.results, nil, a.Call(callee).B)
+		}
+		f1 := fwd(fwd(im.idx))
+		a := (&wb.Asm{}).I32Const(dirtDepth).LocalGet(0).Call(dirt).Drop()
+		for k := range im.params {
+			a.LocalGet(uint32(k + 1))
+		}
+		a.Call(f1)
+		m.ExportFunc("dirty:"+names[i], m.AddFunc(append([]byte{wb.I64}, im.params...), im.results, nil, a.B))
+		if names[i] == probeFn { // clean-stack wrapper of the probe
+			c := &wb.Asm{}
+			for k := range im.params {
+				c.LocalGet(uint32(k))
+			}
+			m.ExportFunc(probeFn, m.AddFunc(im.params, im.results, nil, c.Call(im.idx).B))
+		}
+	}
 	m.Exports = append(m.Exports, wb.Export{Name: "memory", Kind: wb.KindMemory, Idx: 0})
 	return m.Encode()
+}
+
+// probeHost instantiates the probe module: upper9 returns a bit mask of the parameters whose
+// 64-bit slot has a non-zero upper half when the host function looks at it.
+func probeHost(ctx context.Context, rt wazero.Runtime) error {
+	i32 := api.ValueTypeI32
+	_, err := rt.NewHostModuleBuilder(probeMod).NewFunctionBuilder().
+		WithGoModuleFunction(api.GoModuleFunc(func(_ context.Context, _ api.Module, stack []uint64) {
+			var mask uint64
+			for k := 0; k < 9; k++ {
+				if stack[k]>>32 != 0 {
+					mask |= 1 << k
+				}
+			}
+			stack[0] = mask
+		}), []api.ValueType{i32, i32, i32, i32, i32, i32, i32, i32, i32}, []api.ValueType{api.ValueTypeI64}).
+		Export(probeFn).Instantiate(ctx)
+	return err
 }
 
 // template is the content of guest memory before every call.
@@ -230,6 +317,9 @@ func (w *world) engine(name string) (*engineRT, error) {
 	if _, err := wasi_snapshot_preview1.Instantiate(w.ctx, rt); err != nil {
 		return nil, err
 	}
+	if err := probeHost(w.ctx, rt); err != nil {
+		return nil, err
+	}
 	code, err := rt.CompileModule(w.ctx, w.bin)
 	if err != nil {
 		return nil, fmt.Errorf("guest module rejected: %w", err)
@@ -277,6 +367,16 @@ type caseID struct {
 	Fn     string   `json:"fn"`
 	State  string   `json:"state"`
 	Args   []uint64 `json:"args"`
+	// Dirty != 0: the call is made through "dirty:<fn>" with this stack pattern (compared with the clean call).
+	Dirty uint64 `json:"dirty_stack_pattern,omitempty"`
+	// direct != nil (attribution only): the host function is invoked directly with a stack slice in
+	// which the upper half of parameter `param` is set to `upper`.
+	direct *directSpec
+}
+
+type directSpec struct {
+	param int
+	upper uint32
 }
 
 type viol struct {
@@ -292,6 +392,10 @@ type caseRes struct {
 	alloc      uint64
 	lowfree    string
 	harness    string // non-empty: harness error
+	// fx: what the call did, in a form that is equal for equal behaviour on any engine and any
+	// worker: outcome, which designated output regions were touched, descriptor-table effect.
+	// fxStrong additionally hashes the changed bytes (comparable within one worker only).
+	fx, fxStrong string
 }
 
 type inst struct {
@@ -576,12 +680,29 @@ func (w *world) runCase(c caseID) (res caseRes) {
 	in.mem.Write(0, w.tmpl)
 
 	// ---- the call, bracketed by the allocation counter
-	fnc := mod.ExportedFunction(c.Fn)
-	metrics.Read(w.sample)
-	a0 := w.sample[0].Value.Uint64()
-	rs, cerr := fnc.Call(w.ctx, c.Args...)
-	metrics.Read(w.sample)
-	res.alloc = w.sample[0].Value.Uint64() - a0
+	var rs []uint64
+	var cerr error
+	switch {
+	case c.direct != nil:
+		rs, cerr = w.directCall(eng, mod, c)
+	case c.Dirty != 0:
+		fnc := mod.ExportedFunction("dirty:" + c.Fn)
+		dargs := append([]uint64{c.Dirty}, c.Args...)
+		metrics.Read(w.sample)
+		a0 := w.sample[0].Value.Uint64()
+		rs, cerr = fnc.Call(w.ctx, dargs...)
+		metrics.Read(w.sample)
+		res.alloc = w.sample[0].Value.Uint64() - a0
+	default:
+		fnc := mod.ExportedFunction(c.Fn)
+		metrics.Read(w.sample)
+		a0 := w.sample[0].Value.Uint64()
+		rs, cerr = fnc.Call(w.ctx, c.Args...)
+		metrics.Read(w.sample)
+		res.alloc = w.sample[0].Value.Uint64() - a0
+	}
+	defer func() { res.fxStrong = res.fx + res.fxStrong }()
+	res.fx = "?"
 
 	exited := false
 	switch {
@@ -620,6 +741,7 @@ func (w *world) runCase(c caseID) (res caseRes) {
 	if cerr == nil && len(rs) == 1 {
 		errno = rs[0]
 	}
+	res.fx = res.outcome
 
 	// ---- host allocation
 	if res.alloc > allocBudget {
@@ -650,6 +772,32 @@ func (w *world) runCase(c caseID) (res caseRes) {
 		if bad > 0 {
 			add("write-outside-output", fmt.Sprintf("%d changed bytes outside the designated output regions %v: first at %#x, last at %#x", bad, spans, first, last))
 		}
+		// effect: which designated regions were touched (+ anything outside), and a hash of the changed bytes
+		touched := make([]byte, len(spans))
+		h := fnv.New64a()
+		var rec [5]byte
+		for base := 0; base < memSize; base += 4096 {
+			if bytes.Equal(post[base:base+4096], w.tmpl[base:base+4096]) {
+				continue
+			}
+			for i := base; i < base+4096; i++ {
+				if post[i] == w.tmpl[i] {
+					continue
+				}
+				for k, sp := range spans {
+					if uint64(i) >= sp.lo && uint64(i) < sp.hi {
+						touched[k] = 1
+					}
+				}
+				binary.LittleEndian.PutUint32(rec[:], uint32(i))
+				rec[4] = post[i]
+				h.Write(rec[:])
+			}
+		}
+		res.fx += fmt.Sprintf("|mem:%v outside:%v", touched, bad > 0)
+		if !hostVaryingContent[c.Fn] {
+			res.fxStrong = fmt.Sprintf("|bytes:%016x", h.Sum64())
+		}
 	}
 	if c.Fn == "path_open" && errno == 0 {
 		if v, ok := in.mem.ReadUint32Le(uint32(c.Args[8])); ok {
@@ -660,6 +808,9 @@ func (w *world) runCase(c caseID) (res caseRes) {
 	// ---- descriptor table
 	if exited {
 		return // the instance is closed by the documented exit; nothing left to observe
+	}
+	if newFd >= 0 {
+		res.fx += fmt.Sprintf("|newfd:%d", newFd)
 	}
 	if newFd >= 0 {
 		if _, ok := pre[int32(newFd)]; !ok {
@@ -717,6 +868,7 @@ func (w *world) runCase(c caseID) (res caseRes) {
 		}
 		if postTab[fd] != pre[fd] {
 			changed = true
+			res.fx += fmt.Sprintf("|fd%d:%v", fd, postTab[fd])
 		}
 	}
 	if changed || newFd >= 0 {
@@ -725,6 +877,9 @@ func (w *world) runCase(c caseID) (res caseRes) {
 
 	// ---- lowest-free allocation continues: open "." through a directory that is still open
 	res.lowfree = "skipped"
+	if c.Dirty != 0 || c.direct != nil {
+		return // variants are judged by comparison with the clean call
+	}
 	dirFd := int32(-1)
 	for _, cand := range []int32{3, 6} {
 		if p := postTab[cand]; p.valid() && p.ftype == 3 {
@@ -752,6 +907,90 @@ func (w *world) runCase(c caseID) (res caseRes) {
 		}
 	}
 	return
+}
+
+// Functions whose output bytes legitimately differ between two runs in the same worker (inode,
+// access time of the host files): their changed bytes are compared by region only.
+var hostVaryingContent = map[string]bool{"fd_filestat_get": true, "path_filestat_get": true}
+
+// directCall invokes the Go host function behind c.Fn directly (no engine in between) with a stack
+// slice whose entry for parameter c.direct.param carries c.direct.upper in its upper half. It is used
+// only to attribute a dirty-stack difference to one parameter.
+func (w *world) directCall(eng *engineRT, mod api.Module, c caseID) (rs []uint64, err error) {
+	hm, ok := eng.rt.Module(wasiMod).(*wasm.ModuleInstance)
+	if !ok {
+		return nil, fmt.Errorf("host module instance not accessible")
+	}
+	var gf api.GoModuleFunction
+	for i := range hm.Source.ExportSection {
+		e := &hm.Source.ExportSection[i]
+		if e.Type == wasm.ExternTypeFunc && e.Name == c.Fn {
+			gf, _ = hm.Source.CodeSection[e.Index].GoFunc.(api.GoModuleFunction)
+		}
+	}
+	if gf == nil {
+		return nil, fmt.Errorf("no Go function behind %s", c.Fn)
+	}
+	stack := make([]uint64, len(c.Args)+1)
+	for i, a := range c.Args {
+		if !fnTableByName(c.Fn).params[i].k.is64() {
+			a = uint64(uint32(a))
+		}
+		stack[i] = a
+	}
+	if c.direct.param >= 0 {
+		stack[c.direct.param] |= uint64(c.direct.upper) << 32
+	}
+	defer func() {
+		if r := recover(); r != nil {
+			if e, ok := r.(error); ok {
+				err = e
+			} else {
+				err = fmt.Errorf("%v", r)
+			}
+		}
+	}()
+	gf.Call(w.ctx, mod, stack)
+	if fnTableByName(c.Fn).noResult {
+		return nil, nil
+	}
+	return stack[:1], nil
+}
+
+func fnTableByName(n string) *fn { _, f := fnByName(n); return f }
+
+// staleBitsViolation compares a dirty-stack call with the clean call of the same tuple (both made
+// in this worker). On a difference it attributes it to a parameter by calling the host function
+// directly with the upper half of one 32-bit parameter at a time set.
+func (w *world) staleBitsViolation(clean caseID, cleanRes, dirtyRes caseRes, pattern uint64) *viol {
+	if dirtyRes.fxStrong == cleanRes.fxStrong {
+		return nil
+	}
+	f := fnTableByName(clean.Fn)
+	param := "param?"
+	name := ""
+	base := clean
+	base.direct = &directSpec{param: -1}
+	ref := w.runCase(base)
+	if ref.harness == "" {
+	outer:
+		for k, pr := range f.params {
+			if pr.k.is64() {
+				continue
+			}
+			for _, up := range []uint32{uint32(pattern >> 32), 0xFFFFFFFF, 0x80000000, 1} {
+				v := clean
+				v.direct = &directSpec{param: k, upper: up}
+				if r := w.runCase(v); r.harness == "" && r.fxStrong != ref.fxStrong {
+					param, name = fmt.Sprintf("param%d", k), " ("+pr.name+")"
+					break outer
+				}
+			}
+		}
+	}
+	return &viol{clean.Fn + ":depends-on-stale-upper-argument-bits:" + param,
+		fmt.Sprintf("reached through two forwarding functions after a stack dirtier (pattern %#x) the call behaves differently from the clean-stack call with the same 32-bit argument values: clean %q, dirty %q; attributed to %s%s by invoking the host function with only that slot's upper half set",
+			pattern, cleanRes.fxStrong, dirtyRes.fxStrong, param, name)}
 }
 
 func firstLine(s string) string {
